@@ -331,7 +331,9 @@ StylesheetConstructionContextDefault::destroy(StylesheetRoot*   theStylesheetRoo
     {
         m_stylesheets.erase(i);
 
-        delete theStylesheetRoot;
+        XalanDestroy(
+            getMemoryManager(),
+            *theStylesheetRoot);
     }
 
     if (m_stylesheets.empty() == true)
